@@ -1513,200 +1513,7 @@ theorem addHeadMulti_refines (q : Ring α) (hG : Good c q) (xs : List α) :
   rw [b2, e2, List.take_of_length_le (Nat.le_refl _)]
 
 
-/-! ## the proved operations as one step function -/
-
-inductive Op (α : Type) where
-  | addTail (v : α) | addHead (v : α) | removeHead | removeTail
-  | getItemAt (i : Nat) | replaceItemAt (i : Nat) (v : α)
-  | clear (release : Bool)
-  | ensureSize (n : Nat) (setNum : Bool) (extra : Nat) (shrink : Bool)
-  | removeHeadMulti (n : Nat) | removeTailMulti (n : Nat)
-  | addTailMulti (xs : List α) | addHeadMulti (xs : List α)
-  | assign (xs : List α) | copyFrom (xs : List α)
-  | swap (i j : Nat)
-
-inductive Res (α : Type) where
-  | ok | err | item (v : α) | num (n : Nat)
-  deriving DecidableEq
-
-/-- the real code, one public call.  (`swap` with a bad index is an assertion failure in C++; here the call is refused.) -/
-def Ring.step (q : Ring α) : Op α → Ring α × Res α
-  | .addTail v => (q.addTail c v, .ok)
-  | .addHead v => (q.addHead c v, .ok)
-  | .removeHead => let r := q.removeHead c; (r.1, if r.2 then .ok else .err)
-  | .removeTail => let r := q.removeTail c; (r.1, if r.2 then .ok else .err)
-  | .getItemAt i => (q, match q.getItemAt c i with | some v => .item v | none => .err)
-  | .replaceItemAt i v => let r := q.replaceItemAt i v; (r.1, if r.2 then .ok else .err)
-  | .clear rel => (q.clear c rel, .ok)
-  | .ensureSize n sn extra shrink => (q.ensureSizeAux c n sn extra shrink, .ok)
-  | .removeHeadMulti n => let r := q.removeHeadMulti c n; (r.1, .num r.2)
-  | .removeTailMulti n => let r := q.removeTailMulti c n; (r.1, .num r.2)
-  | .addTailMulti xs => (q.addTailMulti c xs, .ok)
-  | .addHeadMulti xs => (q.addHeadMulti c xs, .ok)
-  | .assign xs => (q.assign c xs, .ok)
-  | .copyFrom xs => (q.copyFrom c xs, .ok)
-  | .swap i j => if i < q.count ∧ j < q.count then (q.swap c i j, .ok) else (q, .err)
-
-namespace Spec
-/-- the ideal sequence, one operation -/
-def step (dflt junk : α) (l : List α) : Op α → List α × Res α
-  | .addTail v => (addTail l v, .ok)
-  | .addHead v => (addHead l v, .ok)
-  | .removeHead => let r := removeHead l; (r.1, if r.2 then .ok else .err)
-  | .removeTail => let r := removeTail l; (r.1, if r.2 then .ok else .err)
-  | .getItemAt i => (l, match getItemAt l i with | some v => .item v | none => .err)
-  | .replaceItemAt i v => let r := replaceItemAt l i v; (r.1, if r.2 then .ok else .err)
-  | .clear _ => (clear l, .ok)
-  | .ensureSize n sn _ _ => (ensureSize dflt l n sn, .ok)
-  | .removeHeadMulti n => let r := removeHeadMulti l n; (r.1, .num r.2)
-  | .removeTailMulti n => let r := removeTailMulti l n; (r.1, .num r.2)
-  | .addTailMulti xs => (addTailMulti l xs, .ok)
-  | .addHeadMulti xs => (addHeadMulti l xs, .ok)
-  | .assign xs => (assign l xs, .ok)
-  | .copyFrom xs => (assign l xs, .ok)
-  | .swap i j => if i < l.length ∧ j < l.length then (swap junk l i j, .ok) else (l, .err)
-
-/-- the ideal operation is undefined: empty sequence, bad index -/
-def undefined (l : List α) : Op α → Prop
-  | .removeHead => l.length = 0
-  | .removeTail => l.length = 0
-  | .getItemAt i => l.length ≤ i
-  | .replaceItemAt i _ => l.length ≤ i
-  | .swap i j => ¬ (i < l.length ∧ j < l.length)
-  | _ => False
-end Spec
-
-theorem inv_replaceItemAt (q : Ring α) (hI : Inv c q) (i : Nat) (v : α) : Inv c (q.replaceItemAt i v).1 := by
-  unfold Ring.replaceItemAt
-  by_cases h : i ≥ q.count
-  · simp [h]; exact hI
-  · simp [h]; exact inv_put c q hI _ _
-
-theorem clean_replaceItemAt (q : Ring α) (hI : Inv c q) (hC : Clean c q) (i : Nat) (v : α) : Clean c (q.replaceItemAt i v).1 := by
-  unfold Ring.replaceItemAt
-  by_cases h : i ≥ q.count
-  · simp [h]; exact hC
-  · simp [h]; exact clean_put c q hI hC i (by omega) v
-
-theorem step_refines (q : Ring α) (hG : Good c q) (op : Op α) :
-    Good c (q.step c op).1 ∧ (q.step c op).1.abs c = (Spec.step c.dflt c.junk (q.abs c) op).1 ∧
-    (q.step c op).2 = (Spec.step c.dflt c.junk (q.abs c) op).2 := by
-  obtain ⟨hI, hC⟩ := hG
-  cases op with
-  | addTail v =>
-    obtain ⟨a1, a2, a3⟩ := addTail_refines c q hI hC v
-    exact ⟨⟨a1, a3⟩, a2, rfl⟩
-  | addHead v =>
-    obtain ⟨a1, a2, a3⟩ := addHead_refines c q hI hC v
-    exact ⟨⟨a1, a3⟩, a2, rfl⟩
-  | removeHead =>
-    have h := removeHead_refines c q hI
-    simp only [Prod.ext_iff] at h
-    refine ⟨⟨inv_removeHead c q hI, fun hcl => clean_removeHead c hcl q hI (hC hcl)⟩, h.1, ?_⟩
-    simp only [Ring.step, Spec.step, h.2]
-  | removeTail =>
-    have h := removeTail_refines c q hI
-    simp only [Prod.ext_iff] at h
-    refine ⟨⟨inv_removeTail c q hI, fun hcl => clean_removeTail c hcl q hI (hC hcl)⟩, h.1, ?_⟩
-    simp only [Ring.step, Spec.step, h.2]
-  | getItemAt i =>
-    refine ⟨⟨hI, hC⟩, rfl, ?_⟩
-    simp only [Ring.step, Spec.step, getItemAt_refines]
-  | replaceItemAt i v =>
-    have h := replaceItemAt_refines c q hI i v
-    simp only [Prod.ext_iff] at h
-    refine ⟨⟨inv_replaceItemAt c q hI i v, fun hcl => clean_replaceItemAt c q hI (hC hcl) i v⟩, h.1, ?_⟩
-    simp only [Ring.step, Spec.step, h.2]
-  | clear rel =>
-    exact ⟨⟨(clear_refines c q hI rel).1, fun hcl => clean_clear c hcl q hI (hC hcl) rel⟩, (clear_refines c q hI rel).2, rfl⟩
-  | ensureSize n sn extra shrink =>
-    obtain ⟨e1, e2, e3, _⟩ := ensure_spec c q hI hC n sn extra shrink
-    exact ⟨⟨e1, e3⟩, e2, rfl⟩
-  | removeHeadMulti n =>
-    obtain ⟨m1, m2, m3, m4⟩ := removeHeadMulti_spec c q hI n
-    refine ⟨⟨m1, fun hcl => m4 hcl (hC hcl)⟩, m2, ?_⟩
-    simp only [Ring.step, Spec.step, Spec.removeHeadMulti, m3, abs_length]
-  | removeTailMulti n =>
-    obtain ⟨m1, m2, m3, _, _, _, _, m8⟩ := removeTailMulti_spec c q hI n
-    refine ⟨⟨m1, fun hcl => m8 hcl (hC hcl)⟩, ?_, ?_⟩
-    · simp only [Ring.step, Spec.step, Spec.removeTailMulti, m2, abs_length]
-    · simp only [Ring.step, Spec.step, Spec.removeTailMulti, m3, abs_length]
-  | addTailMulti xs => exact ⟨(addTailMulti_refines c q ⟨hI, hC⟩ xs).1, (addTailMulti_refines c q ⟨hI, hC⟩ xs).2, rfl⟩
-  | addHeadMulti xs => exact ⟨(addHeadMulti_refines c q ⟨hI, hC⟩ xs).1, (addHeadMulti_refines c q ⟨hI, hC⟩ xs).2, rfl⟩
-  | assign xs => exact ⟨(assign_refines c q ⟨hI, hC⟩ xs).1, (assign_refines c q ⟨hI, hC⟩ xs).2, rfl⟩
-  | copyFrom xs => exact ⟨(copyFrom_refines c q ⟨hI, hC⟩ xs).1, (copyFrom_refines c q ⟨hI, hC⟩ xs).2, rfl⟩
-  | swap i j =>
-    simp only [Ring.step, Spec.step, abs_length]
-    by_cases h : i < q.count ∧ j < q.count
-    · simp only [h, and_self, if_true]
-      obtain ⟨s1, s2⟩ := swap_refines c q ⟨hI, hC⟩ i j h.1 h.2
-      exact ⟨s1, s2, (by triv)⟩
-    · simp only [h, if_false]
-      exact ⟨⟨hI, hC⟩, (by triv), (by triv)⟩
-
-theorem step_failure (q : Ring α) (op : Op α) :
-    ((q.step c op).2 = .err ↔ Spec.undefined (q.abs c) op) ∧ ((q.step c op).2 = .err → (q.step c op).1 = q) := by
-  cases op with
-  | addTail v => simp [Ring.step, Spec.undefined]
-  | addHead v => simp [Ring.step, Spec.undefined]
-  | removeHead =>
-    simp only [Ring.step, Spec.undefined, Ring.removeHead, abs_length]
-    by_cases h : q.count = 0 <;> simp [h]
-  | removeTail =>
-    simp only [Ring.step, Spec.undefined, Ring.removeTail, abs_length]
-    by_cases h : q.count = 0 <;> simp [h]
-  | getItemAt i =>
-    simp only [Ring.step, Spec.undefined, Ring.getItemAt, abs_length]
-    by_cases h : i < q.count
-    · simp [h]
-    · simp [h]; all_goals omega
-  | replaceItemAt i v =>
-    simp only [Ring.step, Spec.undefined, Ring.replaceItemAt, abs_length]
-    by_cases h : i ≥ q.count
-    · simp [h]; all_goals omega
-    · simp [h]; all_goals omega
-  | clear rel => simp [Ring.step, Spec.undefined]
-  | ensureSize n sn extra shrink => simp [Ring.step, Spec.undefined]
-  | removeHeadMulti n => simp [Ring.step, Spec.undefined]
-  | removeTailMulti n => simp [Ring.step, Spec.undefined]
-  | addTailMulti xs => simp [Ring.step, Spec.undefined]
-  | addHeadMulti xs => simp [Ring.step, Spec.undefined]
-  | assign xs => simp [Ring.step, Spec.undefined]
-  | copyFrom xs => simp [Ring.step, Spec.undefined]
-  | swap i j =>
-    simp only [Ring.step, Spec.undefined, abs_length]
-    by_cases h : i < q.count ∧ j < q.count
-    · simp [h]
-    · simp only [h, if_false, not_false_eq_true, true_and, implies_true, and_self]
-
-theorem inv_empty : Inv c (Ring.empty c) := by
-  constructor <;> simp [Ring.empty, Ring.size, fresh]
-
-theorem good_empty : Good c (Ring.empty c) := ⟨inv_empty c, fun hcl => clean_empty c hcl⟩
-
-/-- a whole history on the real code / on the ideal sequence: final state and the list of results -/
-def Ring.exec (q : Ring α) : List (Op α) → Ring α × List (Res α)
-  | [] => (q, [])
-  | op :: ops => let r := q.step c op; let rest := Ring.exec r.1 ops; (rest.1, r.2 :: rest.2)
-
-def Spec.exec (dflt junk : α) (l : List α) : List (Op α) → List α × List (Res α)
-  | [] => (l, [])
-  | op :: ops => let r := Spec.step dflt junk l op; let rest := Spec.exec dflt junk r.1 ops; (rest.1, r.2 :: rest.2)
-
-theorem exec_refines (q : Ring α) (hG : Good c q) (ops : List (Op α)) :
-    Good c (q.exec c ops).1 ∧ (q.exec c ops).1.abs c = (Spec.exec c.dflt c.junk (q.abs c) ops).1 ∧
-    (q.exec c ops).2 = (Spec.exec c.dflt c.junk (q.abs c) ops).2 := by
-  induction ops generalizing q with
-  | nil => exact ⟨hG, rfl, rfl⟩
-  | cons op ops ih =>
-    obtain ⟨h1, h2, h3⟩ := step_refines c q hG op
-    obtain ⟨i1, i2, i3⟩ := ih _ h1
-    simp only [Ring.exec, Spec.exec]
-    rw [← h2, ← h3]
-    exact ⟨i1, i2, by rw [i3]⟩
-
-
-/-! ## groundwork for `RemoveItemAt` (the two shifting loops; the refinement theorem itself is not finished) -/
+/-! ## the two shifting loops of `RemoveItemAt` -/
 
 theorem shiftFromHead_spec (i : Nat) (q : Ring α) (hh : q.head < q.size) (hi : i < q.size) (fuel : Nat) (hf : i ≤ fuel) :
     SameShape (Ring.shiftFromHead c q fuel (q.phys i)) q ∧
